@@ -65,6 +65,48 @@ def run(ctx):
     if not L.sv or not L.alive_fns:
         ctx.bad("R09.0", "liveness-anchor", "stored-entry type / liveness predicate not found", detail="ANCHOR-MISSING")
         return
+    # ---- R09.9 one notion of "readable": the soft-delete flag is consulted only by the liveness predicate (and the private
+    # helpers only it calls).  A second reader - `is_dead_at(now)` with its own boundary, a conditional removal's predicate -
+    # is a second definition of liveness that the decision table of R09.1 does not cover.
+    sv_adt = F.adts[L.sv]
+    soft_idx = [i for i, fl in enumerate(sv_adt["variants"][0]["fields"]) if fl["name"] == L.SOFT][0]
+
+    def reads_soft(g):
+        def in_place(pl):
+            return any(isinstance(e, dict) and e.get("f") == L.SOFT and e.get("i", soft_idx) == soft_idx for e in pl["p"])
+        for b in g.live_blocks():
+            for st in g.blocks[b]["stmts"]:
+                if st["k"] != "assign":
+                    continue
+                rv = st["rv"]
+                ops = [rv[k] for k in ("op", "a", "b") if isinstance(rv.get(k), dict)] + list(rv.get("ops") or [])
+                pls = [o["place"] for o in ops if isinstance(o, dict) and o.get("k") in ("copy", "move")]
+                if rv["k"] in ("ref", "discr"):
+                    pls.append(rv["place"])
+                if any(in_place(pl) for pl in pls):
+                    return True
+            t = g.term(b)
+            if t["k"] == "switch" and t["discr"].get("k") in ("copy", "move") and in_place(t["discr"]["place"]):
+                return True
+        return False
+    readers = {n for n, g in F.fns.items() if reads_soft(g)}
+    allowed = set(L.alive_fns)
+    changed = True
+    while changed:
+        changed = False
+        for n in sorted(readers - allowed):
+            g = F.fns[n]
+            callers = {h.name for h in F.fns.values() for b, t in h.calls() if t.get("rpath") == n and t["res"] == "item"}
+            if g.kind == "Closure":
+                callers.add(F.parent_fn(g).name)
+            if callers and callers <= allowed:
+                allowed.add(n)
+                changed = True
+    for n in sorted(readers):
+        ctx.check(n in allowed, "R09.9", "%s|soft-delete-flag-read-only-by-liveness" % n,
+                  "the soft-delete flag is consulted only by the liveness predicate (or a private helper only it uses): every decision about an entry being readable goes through the one predicate whose table R09.1 checks",
+                  F.fns[n].where())
+    ctx.floor("R09.9", "readers of the soft-delete flag", len(readers), 1)
     # ---- R09.1 decision table ------------------------------------------------------------------
     for an in sorted(L.alive_fns):
         f = F.fn(an)
